@@ -23,7 +23,7 @@ ASSUMPTIONS = ['pysam VariantFile / tabix are trusted', 'truth is only demanded 
                'positions >= 0 are queried (position -1 is an internal sentinel)']
 MIN_NONTRIVIAL = {'quick': 1500, 'thorough': 100000}
 REQUIRED_MONITORS = ['ret:getAllelesAt', 'ret:has_location', 'mode:eager', 'mode:lazy', 'mode:cache_write', 'mode:cache_read',
-                     'mode:cache_flag_without_lazy', 'history:cache_from_other_config', 'oracle:clean_sites', 'evicted_contig_revisited', 'tagger:runs', 'oracle:DA_compared', 'fault:cache_close_failures']
+                     'mode:cache_flag_without_lazy', 'history:cache_from_other_config', 'history:cache_from_other_sample_selection', 'config:empty_sample_selection', 'oracle:clean_sites', 'evicted_contig_revisited', 'tagger:runs', 'oracle:DA_compared', 'fault:cache_close_failures']
 SHARD_TIMEOUT = {'quick': 600, 'thorough': 3600}
 
 
@@ -219,6 +219,9 @@ def run_case(case):
         plain = os.path.join(d, 'v.vcf')
         contigs, samples, rows = gen_vcf(r, plain)
         select = None if r.random() < 0.5 else sorted(r.sample(samples, r.randint(1, len(samples))))
+        if r.random() < 0.12:
+            select = []     # the empty selection: nothing can be returned, in any mode
+            acc.count('config:empty_sample_selection')
         ignore = None if r.random() < 0.5 else set(r.sample([(a, b) for a in 'ACGT' for b in 'ACGT' if a != b], r.randint(1, 3)))
         phased = r.random() < 0.8
         if not phased:
@@ -311,9 +314,16 @@ def run_case(case):
         # history: the cache was written by an earlier run with a different ignore_conversions setting
         gz5 = fresh_copy('cacheH')
         other_ignore = None if ignore else {('C', 'T'), ('G', 'A')}
+        other_select = select
+        if phased and r.random() < 0.6:
+            # ... or with another sample selection (all samples / none / a different subset)
+            other_select = r.choice([x for x in (None, [], samples[:1], samples[-1:], sorted(samples)) if x != select])
+            if r.random() < 0.5:
+                other_ignore = ignore
+            acc.count('history:cache_from_other_sample_selection')
         try:
             with contextlib.redirect_stdout(io.StringIO()):
-                pre = AlleleResolver(gz5, phased=phased, select_samples=select, ignore_conversions=other_ignore, lazyLoad=True, use_cache=True)
+                pre = AlleleResolver(gz5, phased=phased, select_samples=other_select, ignore_conversions=other_ignore, lazyLoad=True, use_cache=True)
                 for c in contigs:
                     pre.getAllelesAt(c, 0, 'A')
         except Exception as ex:
